@@ -48,6 +48,11 @@ func (c *Ctx) add(rule, key, site, verdict, detail string, nontrivial bool) {
 // path / table row / value flow.
 func (c *Ctx) OK(rule, key, site, detail string) { c.add(rule, key, site, "discharged", detail, true) }
 
+// Triv records a discharged obligation whose decision inspected nothing
+// beyond the absence of a construct (e.g. "no row ⇒ rejected"); it is not
+// counted as non-trivial in the evidence.
+func (c *Ctx) Triv(rule, key, site, detail string) { c.add(rule, key, site, "discharged", detail, false) }
+
 // Bad records a violated obligation.
 func (c *Ctx) Bad(rule, key, site, detail string) { c.add(rule, key, site, "violated", detail, true) }
 
